@@ -107,6 +107,17 @@ def oracle(res, cux, ComplexS, s, rng):
             a = (cux.strand_table_to_sequence(ptrots[k][0]), cux.pair_table_to_dot_bracket(ptrots[k][1]))
             if (list(a[0]), list(a[1])) != dbrots[k] or dbrots[k] != objrots[(n - k) % n]:
                 ok = False
+    if ok:
+        # the documented use of the turn count: "turns = 1 for a single forced rotation"; and join=True is the joined list form
+        try:
+            d1 = [(list(a), list(b)) for a, b in cux.rotate_complex_db(list(seq), list(sst), turns=1)]
+            p1 = [(copy.deepcopy(a), copy.deepcopy(b)) for a, b in cux.rotate_complex_pt(copy.deepcopy(st0), copy.deepcopy(pt0), turns=1)]
+            jn = [(a, b) for a, b in cux.rotate_complex_db(list(seq), list(sst), join=True)] if all(len(x) == 1 for x in seq) else None
+            if d1 != [dbrots[1 % n]] or p1 != [ptrots[1 % n]] or (jn is not None and jn != [(''.join(a), ''.join(b)) for a, b in dbrots]):
+                res.violation('rotation-generators:turns-or-join-argument', {'op': ['rotpt', s]},
+                              'turns=1: %r' % (d1,), 'one forced rotation; join=True gives the joined list form')
+        except Exception as e:
+            res.violation('rotation-generators:turns-argument-raises:' + type(e).__name__, {'op': ['rotpt', s]}, type(e).__name__, 'one forced rotation')
     if not ok:
         res.violation('rotation-generators:disagree', {'op': ['rotpt', s]},
                       'pt=%d db=%d entries' % (len(ptrots), len(dbrots)), 'n rotations starting with the current one; db[k] = once^((n-k) mod n)')
@@ -132,6 +143,25 @@ def oracle(res, cux, ComplexS, s, rng):
                     res.violation('rotate_pairtable_loc:mapping', {'op': ['ComplexS.rotate_pt', ' '.join(seq), s]},
                                   'rotation %d locus %r -> %r: %r' % (k, (si, di), l2, got), repr(want))
                     break
+    # rotate_pairtable_loc for EVERY turn count, also negative and beyond one full turn: (strand - k) mod size, position kept
+    for k in range(-2 * n - 1, 2 * n + 2):
+        for si, row in enumerate(pt):
+            for di in range(len(row)):
+                got = c.rotate_pairtable_loc((si, di), k)
+                if tuple(got) != ((si - k) % n, di):
+                    res.violation('rotate_pairtable_loc:turn-count', {'op': ['ComplexS.rotate_pairtable_loc', ' '.join(seq), s], 'turns': k},
+                                  'locus %r, %d turns -> %r' % ((si, di), k, got), repr(((si - k) % n, di)))
+                    break
+    # the generators with an explicit turn count: k entries, entry e is the e-th rotation (mod the number of strands)
+    base = [(list(a), list(b)) for a, b in ref.rotations([str(x) for x in c.sequence], list(c.structure))]
+    for k in sorted({1, 2, n, n + 1, n + 2, 2 * n + 1}):
+        g1 = [([str(x) for x in a], list(b)) for a, b in c.rotate(k)]
+        g2 = [([str(x) for x in cux.strand_table_to_sequence(a)], list(cux.pair_table_to_dot_bracket(b))) for a, b in c.rotate_pt(k)]
+        want = [base[e % n] for e in range(k)]
+        if g1 != want or g2 != want:
+            res.violation('ComplexS.rotate:explicit-turn-count', {'op': ['ComplexS.rotate', ' '.join(seq), s], 'turns': k},
+                          'rotate(%d): %s, rotate_pt(%d): %s' % (k, g1 == want, k, g2 == want), 'k entries, entry e = rotation e mod %d' % n)
+            break
     # the generators follow the object: after every `turns` assignment both start with the current representation
     if n > 1:
         for v in ([1, n - 1, 0] if n > 2 else [1, 0]):
